@@ -68,6 +68,8 @@ type cluster struct {
 	conns      []net.Conn
 	seq        int
 	engineErr  string
+	gates      map[int32]chan struct{} // Case.Order: the answer of broker id waits here until it is released
+	parked     map[int32]bool
 }
 
 func addrOf(id int32) string { return fmt.Sprintf("b%d:9092", id) }
@@ -110,7 +112,17 @@ func (cl *cluster) serve(id int32, sv net.Conn) {
 		}
 		cl.mu.Lock()
 		body, frame, drop := cl.answer(id, r)
+		var gate chan struct{}
+		switch r.Body.(type) {
+		case *sarama.DescribeLogDirsRequest, *sarama.ListGroupsRequest:
+			if gate = cl.gates[id]; gate != nil {
+				cl.parked[id] = true
+			}
+		}
 		cl.mu.Unlock()
+		if gate != nil {
+			<-gate // the answer (or the connection failure) of this broker is released in the case's order
+		}
 		if drop {
 			return
 		}
@@ -409,6 +421,16 @@ func (cl *cluster) answer(id int32, r *sarama.VerifRequest) (body interface{}, f
 		}
 		sort.Strings(rec.Items)
 		rec.Answer = cl.faultAt(id, hit)
+		if f.Kind == "drop" && f.Broker == id {
+			return nil, nil, true
+		}
+		return resp, nil, false
+	case *sarama.ListGroupsRequest:
+		rec.Kind = "ListGroups"
+		rec.Items = []string{"all-groups"}
+		f := cl.cs.Fault
+		resp := &sarama.ListGroupsResponse{Groups: map[string]string{fmt.Sprintf("grp-b%d", id): "consumer"}}
+		rec.Answer = cl.faultAt(id, false)
 		if f.Kind == "drop" && f.Broker == id {
 			return nil, nil, true
 		}
